@@ -296,9 +296,10 @@ func runTotality(run *core.Run, all []xlate.Item) {
 							}
 						}
 						if ri == 0 && vi == 0 && (r.kind == "ok" || r.kind == "error") {
-							// determinism: two more translations must give byte-identical results
+							// determinism: seven more translations must give byte-identical results (an unsorted walk over a
+							// two-entry Go map has two orders: seven repeats miss it with probability 2^-7)
 							first := canonicalOn(q, variant, mappers[w])
-							for rep := 0; rep < 2; rep++ {
+							for rep := 0; rep < 7; rep++ {
 								again := canonicalOn(q, variant, mappers[w])
 								mu.Lock()
 								evals++
